@@ -43,9 +43,16 @@ def gen_cases(tier, seed):
             base = I.cyc_edge_base(rng, wt="int", max_edges=8) if cyc else I.dag_edge_base(rng, wt="int", max_edges=9)
         steps = [rng.choice(fam + ["MinErrorFlow"]) for _ in range(rng.randint(2, 4))]
         dflt = (i % 8 == 0)
+        queued = cyc and not dflt and i % 3 == 1
+        if queued:
+            # a walk model that queues variable-bound updates at construction (fix_via_bounds) stays unsolved while the others are solved
+            steps[0] = rng.choice(["kFlowDecompCycles", "kMinPathErrorCycles", "kLeastAbsErrorsCycles", "kPathCoverCycles"])
+            steps[1] = rng.choice([c_ for c_ in fam + ["MinErrorFlow", "MinErrorFlow"] if c_ != steps[0]])
         c = {"cyc": cyc, "spec": I.spec_of(base), "steps": steps, "planted": len(base["planted"]), "oo": dict(rng.choice(OO_POOL)), "dflt": dflt,
              "group": "dflt" if dflt else "t1", "ignore": [], "cons": [], "scale": [], "superset": None, "share_ignore": rng.random() < 0.5, "node": node,
              "probe_dict": (not node) and cyc and rng.random() < 0.4, "pending": rng.random() < 0.35}
+        if queued:
+            c["pending"] = True; c["oo"] = {"optimize_with_safe_sequences_fix_via_bounds": True}
         if rng.random() < 0.4 and base["planted"]:
             c["cons"] = gen.jl(I.constraints_from_planted(rng, base, n=1))
         elems = base["nodes"] if node else base["edges"]
@@ -183,6 +190,8 @@ def _run_case(case):
         if r[0] == "ok":
             pending = (pcls, r[1]); obs["c18.pending_models"] += 1
     for i, cls in enumerate(case["steps"]):
+        if pending is not None and i == 0:
+            hist.append(None); continue      # step 0 IS the pending model: built above, solved after the other steps
         kw = build_args(cls, case, shared, ks[i])
         obs["c18.steps"] += 1
         res = outcome(cls, shared["G"], kw, True, viol, obs, f"step {i} {cls}; {desc}")
@@ -225,12 +234,7 @@ def _run_case(case):
             g1 = M.safe_call(pm.get_solution); o1 = M.safe_call(pm.get_objective_value)
             nroutes = len(models.routes_of(g1[1])) if g1[0] == "ok" and isinstance(g1[1], dict) and models.routes_of(g1[1]) is not None else None
             pres = ("solved", round(o1[1], 6) if o1[0] == "ok" and isinstance(o1[1], (int, float)) else str(o1[1:]), nroutes)
-        fs = fresh_shared(case)
-        iso = outcome(pcls, fs["G"], build_args(pcls, case, fs, ks[0]), False, viol, obs, "")
-        obs["c18.isolation_pairs"] += 1
-        if iso != pres:
-            viol.append({"sig": f"C18/result-depends-on-history/{pcls}/constructed-before-solved-after",
-                         "msg": f"{pcls} (k={ks[0]}) constructed first and solved after the steps {case['steps']} gives {pres} but {iso} in isolation; {desc}"})
+        hist[0] = pres
     # isolation: the same constructions with fresh copies and no history
     for i, cls in enumerate(case["steps"]):
         fs = fresh_shared(case)
@@ -238,12 +242,12 @@ def _run_case(case):
         iso = outcome(cls, fs["G"], kw, False, viol, obs, "")
         obs["c18.isolation_pairs"] += 1
         if iso != hist[i]:
-            viol.append({"sig": f"C18/result-depends-on-history/{cls}" + ("/default-args" if case["dflt"] else ""),
-                         "msg": f"step {i} ({cls}, k={ks[i]}) in the history gives {hist[i]} but {iso} in isolation; earlier steps {case['steps'][:i]}; {desc}"})
+            viol.append({"sig": f"C18/result-depends-on-history/{cls}" + ("/default-args" if case["dflt"] else "") + ("/constructed-first-solved-last" if (pending is not None and i == 0) else ("/while-another-model-is-pending" if pending is not None else "")),
+                         "msg": f"step {i} ({cls}, k={ks[i]}) in the history gives {hist[i]} but {iso} in isolation; steps {case['steps']}" + (" (step 0 constructed first, solved last)" if pending is not None else "") + f"; {desc}"})
     seen = set(); out = []
     for v in viol:
         if v["sig"] not in seen:
             seen.add(v["sig"]); out.append(v)
-    nontriv = sum(1 for h in hist if h[0] == "solved") >= 2
+    nontriv = sum(1 for h in hist if h and h[0] == "solved") >= 2
     return {"viol": out[:8], "obs": dict(obs), "nontrivial": nontriv, "keys": [hashlib.sha1(desc.encode()).hexdigest()[:14]] if nontriv else [],
             "sample": {"desc": desc[:600], "history_results": [str(h) for h in hist]}}
